@@ -732,6 +732,17 @@ func (d *Document) Save(filename string) error {
 		verifPoint("save.part")
 	}
 
+	// 显式关闭并检查错误：缓冲的数据在关闭时才真正写入磁盘，
+	// 写入失败（磁盘已满、超出文件大小限制等）只能在这里被发现
+	if err := zipWriter.Close(); err != nil {
+		Errorf("无法完成ZIP写入: %s", filename)
+		return WrapErrorWithContext("close_zip", err, filename)
+	}
+	if err := file.Close(); err != nil {
+		Errorf("无法关闭文件: %s", filename)
+		return WrapErrorWithContext("close_file", err, filename)
+	}
+
 	Infof("成功保存文档: %s", filename)
 	return nil
 }
